@@ -86,13 +86,26 @@ FAMILIES = [('prim', 6), ('container', 30), ('object', 16), ('typed-root', 7),
 
 # -- generation ---------------------------------------------------------------
 
+def _balanced(s):
+  depth = 0
+  for ch in s:
+    depth += (ch == '[') - (ch == ']')
+    if depth < 0:
+      return False
+  return depth == 0
+
+
+# A pg.Dict cannot be built with a key that has unbalanced brackets (C10).
+KEY_STRINGS = [s for s in STRINGS if _balanced(s)]
+
+
 def gen_key(rng):
   r = rng.random()
   if r < 0.55:
     return rng.choice(V.SAFE_KEYS)
   if r < 0.72:
     return rng.choice(INT_KEYS)
-  return rng.choice(STRINGS)
+  return rng.choice(KEY_STRINGS)
 
 
 def gen_leaf(rng):
@@ -203,8 +216,14 @@ def gen_schema(rng):
   return ['schema2', fields, rng.choice([None, 'nm']), md]
 
 
-def gen_space(rng):
-  return SP.random_space(rng, max_depth=2, max_elems=3, names=0.3, lits=0.35)
+def gen_space(rng, max_points=8):
+  """A small search space (building a geno spec costs ~5 ms per point)."""
+  for _ in range(20):
+    d = SP.random_space(rng, max_depth=rng.choice([0, 1, 1, 2]), max_elems=rng.randint(1, 3),
+                        max_n=3, floats=0.2, customs=0.1, names=0.3, lits=0.35)
+    if SP.count_points(d) <= max_points:
+      return d
+  return SP.space(SP.choice(1, SP.consts(2), loc='p0'))
 
 
 def gen_value(rng, family=None):
@@ -236,6 +255,8 @@ def gen_value(rng, family=None):
       d = ['dna', gen_space(rng), rng.randint(0, 10**6)]
     else:
       raise ValueError(family)
+    if any(x[0] == 'H' for x in _all(d)) and has_nan(d):
+      continue          # NaN inside an opaque library object: equality undefined
     if buildable(d):
       return family, d
   return 'prim', ['v', 1]
@@ -251,7 +272,8 @@ def gen_storable(rng, size=None):
   elif r < 0.3:
     fam, d = 'object', D.typed_obj(rng, fill=min(0.9, 0.2 + 0.25 * size))
   elif r < 0.4 and size:
-    fam, d = gen_value(rng, rng.choice(['spec', 'space', 'dna', 'object']))
+    fam, d = gen_value(rng, rng.choice(['spec', 'spec', 'space', 'dna', 'object', 'object',
+                                        'object', 'schema']))
   elif size == 0:
     fam, d = 'prim', gen_leaf(rng)
     if d[0] != 'v':
@@ -373,6 +395,14 @@ def is_partial(d):
   return d[0] == 'P' or any(is_partial(s) for s in subdescs(d))
 
 
+def hash_undefined(d, in_tuple=False):
+  """pg.hash of a tuple falls back to the members' own __hash__, which is
+  the identity for a class with use_symbolic_comparison=False."""
+  if d[0] == 'O' and d[1] == 'NoSymCmp' and in_tuple:
+    return True
+  return any(hash_undefined(s, in_tuple or d[0] == 't') for s in subdescs(d))
+
+
 def size(d):
   return 1 + sum(size(s) for s in subdescs(d))
 
@@ -437,6 +467,13 @@ def _spec_shrinks(sd):
   return out
 
 
+def _all_specs(sd):
+  out = [sd]
+  for c in SG.children(sd):
+    out += _all_specs(c)
+  return out
+
+
 def _space_shrinks(sp):
   out = []
   elems = sp['elems']
@@ -486,6 +523,11 @@ def shrinks(d):
       for c in shrinks(inner)[:12]:
         e = [s[0], c] if k in ('D', 'd') else c
         out.append([k, d[1][:i] + [e] + d[1][i + 1:]])
+    for i, s in enumerate(d[1]):
+      inner = s[1] if k in ('D', 'd') else s
+      if repr(inner) != "['v', 0]":
+        e = [s[0], ['v', 0]] if k in ('D', 'd') else ['v', 0]
+        out.append([k, d[1][:i] + [e] + d[1][i + 1:]])
     if k in ('D', 'd'):
       for i, (kk, vv) in enumerate(d[1]):
         if kk != 'k' and all(o[0] != 'k' for o in d[1]):
@@ -499,6 +541,8 @@ def shrinks(d):
     for i, (kk, vv) in enumerate(d[2]):
       for c in shrinks(vv)[:12]:
         out.append([k, d[1], d[2][:i] + [[kk, c]] + d[2][i + 1:]])
+      if d[1] in UNTYPED and repr(vv) != "['v', 0]":
+        out.append([k, d[1], d[2][:i] + [[kk, ['v', 0]]] + d[2][i + 1:]])
     return out
   if k == 'F':
     for i, (kk, vv) in enumerate(d[1]):
@@ -513,9 +557,34 @@ def shrinks(d):
   if k in ('TD', 'TL'):
     out.append(['spec', d[1]])
     out.append(['v', d[2]])
+    if k == 'TD' and d[1].get('fields'):
+      names = [n for n, _ in d[1]['fields'] if n != '*']
+      for i, (n, _) in enumerate(d[1]['fields']):
+        sd = copy.deepcopy(d[1])
+        sd['fields'].pop(i)
+        if not sd['fields']:
+          continue
+        v = {a: b for a, b in d[2].items() if (a != n if n != '*' else a in names)}
+        out.append(['TD', sd, v])
+      for a in d[2]:
+        out.append(['TD', d[1], {x: y for x, y in d[2].items() if x != a}])
+      for i, (n, fs) in enumerate(d[1]['fields']):
+        for c in _spec_shrinks(fs)[:10]:
+          sd = copy.deepcopy(d[1])
+          sd['fields'][i][1] = c
+          out.append(['TD', sd, d[2]])
+    if k == 'TL':
+      for i in range(len(d[2])):
+        out.append(['TL', d[1], d[2][:i] + d[2][i + 1:]])
+      for c in _spec_shrinks(d[1]['el'])[:10]:
+        sd = copy.deepcopy(d[1])
+        sd['el'] = c
+        out.append(['TL', sd, d[2]])
     return out
   if k == 'spec':
-    return [['spec', s] for s in _spec_shrinks(d[1])]
+    out = [['spec', s] for s in _spec_shrinks(d[1])]
+    out += [['v', x['default'][1]] for x in _all_specs(d[1]) if 'default' in x]
+    return out
   if k == 'field':
     out = [['spec', d[2]]]
     out += [['field', d[1], s, d[3], d[4]] for s in _spec_shrinks(d[2])]
@@ -654,8 +723,13 @@ def kind(d, depth=0):
     return 'opaque-leaf'
   if k == 'sym':
     return d[1]
-  if k in ('TD', 'TL'):
-    return 'typed-root-' + ('Dict' if k == 'TD' else 'List')
+  if k == 'TL':
+    return 'typed-root-List'
+  if k == 'TD':
+    feats = sorted({('dynamic' if n == '*' else 'const') +
+                    ''.join('+' + f for f in ('none', 'default', 'frozen') if f in fs)
+                    for n, fs in (d[1].get('fields') or [])})
+    return 'typed-root-Dict(' + ','.join(feats) + ')'
   if k == 'spec':
     sd = d[1]
     flags = [f for f in ('none', 'default', 'frozen') if f in sd]
@@ -670,7 +744,7 @@ def kind(d, depth=0):
   if k == 'field':
     return 'field(' + kind(['spec', d[2]]) + ')'
   if k == 'schema':
-    return 'class-schema'
+    return 'class-schema-' + d[1]
   if k == 'schema2':
     return 'schema'
   if k == 'space':
